@@ -20,7 +20,7 @@ import (
 // ---- C12: handles: complete, really-served, non-blocking, race-free ----------------
 
 type HEvent struct {
-	Kind string `json:"kind"` // set | poll | refresh | lookup | expire | close | parked-poll | parked-lookup | handle-during-poll | yield
+	Kind string `json:"kind"` // set | poll | refresh | lookup | expire | close | parked-poll | parked-lookup | handle-during-poll | joiner-timeout | yield
 	Name string `json:"name,omitempty"`
 	Back bool   `json:"back,omitempty"` // set: activate an older version instead of a new one
 }
@@ -357,6 +357,56 @@ func runC12(t *testing.T, c HandleCase) (*h.Violation, h.Info) {
 				fail("harness", "polls keep failing after a parked poll was released")
 			}
 			info.Class("reads-while-poll-parked")
+		case "joiner-timeout":
+			// Poll A stalls on d2's request (possibly after it fetched d1); d1 changes again; a Refresh with
+			// a short deadline joins A and times out; another Refresh is issued while A is still stalled.
+			// Whatever that last Refresh does (join A, as it should, or start a poll of its own), a value
+			// installed by a poll that completed must not be replaced by an older one afterwards.
+			if closed {
+				continue
+			}
+			maxVer["d1"]++
+			cur["d1"] = maxVer["d1"]
+			svc.Set("d1", cur["d1"], c12Value("d1", cur["d1"]))
+			pA := plan()
+			svc.SetScript("d2", []fake.Beh{{Kind: "gate"}})
+			aDone := make(chan error, 1)
+			go func() { aDone <- st.Refresh(context.Background()) }()
+			for i := 0; i < 4000 && svc.InFlight("d2") == 0; i++ {
+				time.Sleep(25 * time.Microsecond)
+			}
+			maxVer["d1"]++
+			cur["d1"] = maxVer["d1"]
+			svc.Set("d1", cur["d1"], c12Value("d1", cur["d1"]))
+			pB := plan() // may be installed from now on; acknowledged only by a poll that started after this point
+			bctx, bcancel := context.WithTimeout(context.Background(), 2*time.Millisecond)
+			st.Refresh(bctx) // joins A, times out
+			bcancel()
+			cDone := make(chan error, 1)
+			go func() { cDone <- st.Refresh(context.Background()) }()
+			select {
+			case err := <-cDone:
+				// it did not wait for A: then it ran a complete poll of its own, after the second change
+				if err == nil {
+					commit(pA)
+					commit(pB)
+					info.Class("refresh-overtook-a-stalled-poll")
+				}
+				cDone = nil
+			case <-time.After(15 * time.Millisecond):
+			}
+			svc.OpenGate()
+			svc.SetScript("d2", nil)
+			if err := <-aDone; err == nil {
+				commit(pA)
+			}
+			if cDone != nil {
+				<-cDone
+			}
+			if !drain() {
+				fail("harness", "polls keep failing after the gated poll was released")
+			}
+			info.Class("joiner-timed-out-on-a-stalled-poll")
 		case "handle-during-poll":
 			// the program takes a handle for a cached, so far unreferenced secret while a poll is
 			// between its snapshot and its apply step (the hook runs inside the poll's first request)
@@ -462,7 +512,7 @@ func genHandleCase(rt *rapid.T) HandleCase {
 	c.Events = rapid.SliceOfN(rapid.Custom(func(rt *rapid.T) HEvent {
 		return HEvent{
 			Back: rapid.IntRange(0, 3).Draw(rt, "back") == 0,
-			Kind: rapid.SampledFrom([]string{"set", "set", "set", "poll", "poll", "refresh", "lookup", "expire", "yield", "yield", "parked-poll", "parked-lookup", "handle-during-poll", "close"}).Draw(rt, "kind"),
+			Kind: rapid.SampledFrom([]string{"set", "set", "set", "poll", "poll", "refresh", "lookup", "expire", "yield", "yield", "parked-poll", "parked-lookup", "handle-during-poll", "joiner-timeout", "close"}).Draw(rt, "kind"),
 			Name: rapid.SampledFrom([]string{"d1", "d1", "d2", "u1", "u2", "u3", "c1", "c2"}).Draw(rt, "name"),
 		}
 	}), 3, 30).Draw(rt, "events")
